@@ -230,6 +230,21 @@ fn run(input: RunInput) -> ScenFuture {
         // backoff and the ticks to notice and to retry)
         let final_wait = max_list * (backoff_ns(worst_k, step_ms * MS, max_ms * MS) + ct_ms * MS + 2 * period) + (2 + final_high.len() as u64 / cap as u64 + 1) * period + 2_000 * MS;
         tokio::time::sleep(Duration::from_nanos(final_wait)).await;
+        // a connection that only ends during this phase (a stale one that the healed network
+        // finally resets, a target that disconnects late) restarts the clock for that peer:
+        // "and again after the connection is lost"
+        for _ in 0..4 {
+            let listed = n.net.peers();
+            let last_loss = final_high
+                .iter()
+                .filter(|k| !listed.contains(&ids[**k]))
+                .filter_map(|k| evlog.lock().unwrap().iter().filter(|(_, e)| matches!(e, PeerEvent::LostPeer(p, _) if *p == ids[*k])).map(|(t, _)| *t).last())
+                .max();
+            match last_loss {
+                Some(t) if t + final_wait > w.now_ns() => tokio::time::sleep(Duration::from_nanos(t + final_wait - w.now_ns())).await,
+                _ => break,
+            }
+        }
         let t_end = w.now_ns();
         let listed = n.net.peers();
         for k in &final_high {
